@@ -195,6 +195,7 @@ def redirect_loop_cases(methods, start=0):
         for s in REDIRECT_STATUSES:
             cases.append({"i": start + len(cases), "iface": "%s.%s" % (p.name, i.name), "method": m.name, "mode": "fault",
                           "status": s, "body": "", "body_fault": False, "fault": "redirect_loop", "via": 0,
+                          "logging": s in (302, 307), "wrap": s in (303, 307),
                           "_m": m, "_p": p, "_label": "redirect_loop"})
     return cases
 
@@ -208,7 +209,8 @@ def gen_cases(run, pkgs, with_redirect_loops=False):
     def add(p, i, m, **kw):
         c = {"i": len(cases), "iface": "%s.%s" % (p.name, i.name), "method": m.name, "mode": kw.pop("mode"),
              "status": kw.pop("status", 0), "body": kw.pop("body", ""), "body_fault": kw.pop("body_fault", False),
-             "fault": kw.pop("fault", ""), "via": kw.pop("via", 0), "_m": m, "_p": p, "_label": kw.pop("label", "")}
+             "fault": kw.pop("fault", ""), "via": kw.pop("via", 0), "logging": kw.pop("logging", False),
+             "wrap": kw.pop("wrap", False), "_m": m, "_p": p, "_label": kw.pop("label", "")}
         cases.append(c)
 
     statuses = g.quick_statuses(rng)
@@ -260,8 +262,20 @@ def gen_cases(run, pkgs, with_redirect_loops=False):
         timed = base or run.thorough() or rng.random() < 0.2
         if timed:
             faults += TIMED_FAULTS if m.ctx else ["timeout"]
+        # client variants: plain, shoot.EnableLogging(true), a pass-through shoot.Use middleware, both --
+        # a middleware of the chain must hand the transport's error on as it is
+        variants = [(False, False), (True, False), (False, True), (True, True)]
         for f in faults:
-            add(p, i, m, mode="fault", fault=f, status=200, body="{}", label=f)
+            vs = variants if (base or f in ("sentinel", "refused")) else [variants[0], rng.choice(variants[1:])]
+            for lg, wr in vs:
+                if f == "nilnil" and lg:
+                    continue        # LoggingMiddleware dereferences the nil response of a transport that breaks its contract
+                add(p, i, m, mode="fault", fault=f, status=200, body="{}", label=f, logging=lg, wrap=wr)
+        # the same variants on ordinary answers
+        for lg, wr in variants[1:]:
+            s_ = rng.choice(inrange)
+            label, b = rng.choice(main4)
+            add(p, i, m, mode=rng.choice(["srv", "fab"]), status=s_, body=b, label=label, logging=lg, wrap=wr)
         # the body stalls after the headers: cancellation (always) / client timeout (few: 0.4 s each)
         if m.ctx:
             for s in (200, 404, 503, 302):
@@ -552,7 +566,8 @@ def main(run):
                  "httptest round trip and a fabricated *http.Response; body variants (null, whitespace, valid+trailing "
                  "text, quoted/UTF-8 text) on the boundary statuses; %d statuses outside 200..599 incl. negatives and "
                  "int64 extremes (fabricated) and 600/750/999 (real server); read errors after part of the body; "
-                 "failures: transport sentinel, response+error, nil/nil, connection refused, context cancelled "
+                 "failures (each also through clients built with shoot.EnableLogging(true) and/or a pass-through shoot.Use "
+                 "middleware): transport sentinel, response+error, nil/nil, connection refused, context cancelled "
                  "before/in flight, context deadline, http.Client.Timeout, stalled body (cancel, timeout), url.JoinPath, "
                  "json.Marshal, nil context.  %d signatures the generator must refuse, one shoot run each.  "
                  "non-trivial = distinct cases with a non-nil error, an empty body, a body that is not plainly decodable, "
@@ -569,6 +584,8 @@ def main(run):
         "statuses_covered_200_599": len([s for s in swept if 200 <= s <= 599]),
         "body_class_to_measured_decode_class": decs,
         "faults": faults,
+        "client_variants": {"logging": sum(1 for c in cases if c["logging"]), "wrapped": sum(1 for c in cases if c["wrap"]),
+                            "fault_cases_with_logging_or_wrap": sum(1 for c in cases if c["mode"] == "fault" and (c["logging"] or c["wrap"]))},
         "refused_signatures": {label: (fatal_of(res[p.name]) or "generated") for label, p in rpkgs},
         "findings_measured": outcome,
         "mismatches": {"raw": len(mism), "timed_rerun": min(len(timed_mism), 40), "timed_not_reproduced": discarded,
